@@ -67,6 +67,23 @@ def two_triangles(perm0=(0, 1, 2), perm1=(0, 1, 2), share=2):
     return v, e
 
 
+def torus(n=3, m=3):
+    """Closed genus-1 surface: n x m quadrilaterals of a (distorted) torus, each split into two triangles (outward orientation)."""
+    v = []
+    for i in range(n):
+        for j in range(m):
+            a, b = 2 * np.pi * i / n + 0.1 * j, 2 * np.pi * j / m + 0.05 * i
+            r = 2.0 + (0.8 + 0.05 * i) * np.cos(b)
+            v.append([r * np.cos(a), r * np.sin(a), (0.8 + 0.03 * j) * np.sin(b)])
+    e = []
+    for i in range(n):
+        for j in range(m):
+            p00, p10, p11, p01 = i * m + j, ((i + 1) % n) * m + j, ((i + 1) % n) * m + (j + 1) % m, i * m + (j + 1) % m
+            e.append([p00, p10, p11])
+            e.append([p00, p11, p01])
+    return np.array(v, dtype=float).T, np.array(e).T
+
+
 def fan3():
     """Non-manifold: three triangles on one edge."""
     v = np.array([[0.0, 0, 0], [1.0, 0, 0], [0.5, 1, 0], [0.5, -0.3, 0.9], [0.4, -0.5, -0.8]]).T
